@@ -50,6 +50,8 @@ def zexpr(e: ast.expr, env: dict) -> str:
         return BIN[type(e.op)].format(zexpr(e.left, env), zexpr(e.right, env))
     if isinstance(e, ast.UnaryOp) and isinstance(e.op, ast.USub):
         return f"(- {zexpr(e.operand, env)})"
+    if isinstance(e, ast.UnaryOp) and isinstance(e.op, ast.Invert):
+        return f"(Z.lnot {zexpr(e.operand, env)})"
     if isinstance(e, ast.Call) and isinstance(e.func, ast.Name) and not e.keywords:
         if e.func.id in ("max", "min") and len(e.args) == 2:
             return f"(Z.{e.func.id} {zexpr(e.args[0], env)} {zexpr(e.args[1], env)})"
@@ -94,6 +96,14 @@ def is_log_call(st: ast.stmt) -> bool:
             and isinstance(st.value.func.value, ast.Name) and st.value.func.value.id == "log")
 
 
+def target_key(t):
+    if isinstance(t, ast.Name):
+        return t.id
+    if isinstance(t, ast.Attribute) and isinstance(t.value, ast.Name) and t.value.id == "self":
+        return "self." + t.attr
+    return None
+
+
 def run_block(stmts, env: dict, opaque_subscripts=False) -> dict:
     """symbolic execution of straight-line code; returns the new environment"""
     env = dict(env)
@@ -109,18 +119,19 @@ def run_block(stmts, env: dict, opaque_subscripts=False) -> dict:
                     raise GenError("unsupported tuple assignment: " + ast.unparse(st))
                 vals = [zexpr(v, env) for v in st.value.elts]
                 for t, v in zip(st.targets[0].elts, vals):
-                    if not isinstance(t, ast.Name):
+                    if target_key(t) is None:
                         raise GenError("unsupported target: " + ast.unparse(st))
-                    env[t.id] = v
+                    env[target_key(t)] = v
                 continue
             v = zexpr(st.value, env)
             for t in st.targets:
-                if not isinstance(t, ast.Name):
+                if target_key(t) is None:
                     raise GenError("unsupported target: " + ast.unparse(st))
-                env[t.id] = v
+                env[target_key(t)] = v
             continue
-        if isinstance(st, ast.AugAssign) and isinstance(st.target, ast.Name) and type(st.op) in BIN:
-            env[st.target.id] = BIN[type(st.op)].format(zexpr(st.target, env), zexpr(st.value, env))
+        if isinstance(st, ast.AugAssign) and target_key(st.target) is not None and type(st.op) in BIN:
+            load = ast.parse(ast.unparse(st.target), mode="eval").body
+            env[target_key(st.target)] = BIN[type(st.op)].format(zexpr(load, env), zexpr(st.value, env))
             continue
         if isinstance(st, ast.If):
             c = bexpr(st.test, env)
@@ -306,6 +317,72 @@ def main():
     from fractions import Fraction
     q = Fraction(str(pz.value.value.args[0].value))
     out.append(f"Definition gen_drag_pause : Q := ({q.numerator} # {q.denominator})%Q.\n")
+
+    # ---- pointer operations (VNCDoToolClient.mouseMove / mouseDown / mouseUp): attributes x, y, buttons are cx, cy, cb
+    def shift_guards(stmts):
+        """counts of << and >> with a non-constant right operand: Python raises ValueError when one is negative"""
+        gs = []
+        for n in ast.walk(ast.Module(body=stmts, type_ignores=[])):
+            op = getattr(n, "op", None)
+            if isinstance(n, (ast.BinOp, ast.AugAssign)) and isinstance(op, (ast.LShift, ast.RShift)):
+                right = n.right if isinstance(n, ast.BinOp) else n.value
+                if not isinstance(right, ast.Constant):
+                    gs.append(right)
+        return gs
+    for name, ps in (("mouseMove", ["x", "y"]), ("mouseDown", ["button"]), ("mouseUp", ["button"])):
+        m = method(client, "VNCDoToolClient", name)
+        body = [s_ for s_ in m.body if not is_log_call(s_) and not (isinstance(s_, ast.Expr) and isinstance(s_.value, ast.Constant))]
+        if len(body) < 2 or ast.unparse(body[-1]) != "return self":
+            raise GenError(name + ": expected ...; return self")
+        ev = body[-2]
+        if not (isinstance(ev, ast.Expr) and isinstance(ev.value, ast.Call) and ast.unparse(ev.value.func) == "self.pointerEvent"):
+            raise GenError(name + ": expected exactly one self.pointerEvent(...) before the return")
+        inputs = {"self.x": "cx", "self.y": "cy", "self.buttons": "cb", **{p_: p_ for p_ in ps}}
+        env = run_block(body[:-2], inputs)
+        args = list(ev.value.args) + [None] * (3 - len(ev.value.args))
+        for kw in ev.value.keywords:
+            if kw.arg != "buttonmask" or args[2] is not None:
+                raise GenError(name + ": unexpected keyword in pointerEvent")
+            args[2] = kw.value
+        if any(a_ is None for a_ in args) or len(args) != 3:
+            raise GenError(name + ": pointerEvent needs x, y and the button mask")
+        evt = [zexpr(a_, env) for a_ in args]
+        gs = [f"(0 <=? {zexpr(g_, inputs)})" for g_ in shift_guards(body[:-2])]
+        allp = ["cx", "cy", "cb"] + ps
+        out.append(definition("gen_" + name, allp, "(Z * Z * Z) * (Z * Z * Z)",
+                              f"(({env['self.x']}, {env['self.y']}, {env['self.buttons']}), ({evt[0]}, {evt[1]}, {evt[2]}))"))
+        out.append(definition("gen_" + name + "_defined", allp, "bool", " && ".join(gs) if gs else "true"))
+    m = method(client, "VNCDoToolClient", "mousePress")
+    body = [ast.unparse(s_) for s_ in m.body if not is_log_call(s_) and not (isinstance(s_, ast.Expr) and isinstance(s_.value, ast.Constant))]
+    if body != ["self.mouseDown(button)", "self.mouseUp(button)", "return self"]:
+        raise GenError("mousePress is no longer mouseDown(button); mouseUp(button)")
+
+    # ---- key operations: which passes over the decoded keys, in which direction, with which down-flag
+    rows = []
+    for name in ("keyPress", "keyDown", "keyUp"):
+        m = method(client, "VNCDoToolClient", name)
+        body = [s_ for s_ in m.body if not is_log_call(s_) and not (isinstance(s_, ast.Expr) and isinstance(s_.value, ast.Constant))]
+        if len(body) < 3 or ast.unparse(body[0]) != "keys = self._decodeKey(key)" or ast.unparse(body[-1]) != "return self":
+            raise GenError(name + ": expected keys = self._decodeKey(key); loops; return self")
+        passes = []
+        for lp_ in body[1:-1]:
+            if not (isinstance(lp_, ast.For) and isinstance(lp_.target, ast.Name) and len(lp_.body) == 1 and not lp_.orelse):
+                raise GenError(name + ": expected for-loops over the keys only")
+            it_ = ast.unparse(lp_.iter)
+            if it_ not in ("keys", "reversed(keys)"):
+                raise GenError(name + ": loop over " + it_)
+            c_ = lp_.body[0]
+            if not (isinstance(c_, ast.Expr) and isinstance(c_.value, ast.Call) and ast.unparse(c_.value.func) == "self.keyEvent"
+                    and len(c_.value.args) == 1 and ast.unparse(c_.value.args[0]) == lp_.target.id and len(c_.value.keywords) == 1
+                    and c_.value.keywords[0].arg == "down" and isinstance(c_.value.keywords[0].value, ast.Constant)
+                    and isinstance(c_.value.keywords[0].value.value, bool)):
+                raise GenError(name + ": loop body is not self.keyEvent(k, down=<constant>)")
+            passes.append((it_ != "keys", c_.value.keywords[0].value.value))
+        rows.append((name, passes))
+    out.append("(* per key operation: the passes over the decoded keys as (reversed?, down-flag) *)")
+    for name, passes in rows:
+        out.append(f"Definition gen_{name}_passes : list (bool * bool) := ["
+                   + "; ".join(f"({str(r_).lower()}, {str(d_).lower()})" for r_, d_ in passes) + "].\n")
 
     # ---- the VNC-authentication key (rfb._vnc_des)
     m = function(rfb, "_vnc_des")
